@@ -50,6 +50,33 @@ type subject struct {
 	expA  map[string]*ref.T
 	expB  map[string]*ref.T
 	cmp   hx.Cmp
+	// FeedC: the first row (axis 0) of every caller tensor of A that has rank >= 2 - another batch / sequence size.
+	// nil when the reference cannot evaluate the model on it (then it is not used).
+	FeedC map[string]*ref.T
+	expC  map[string]*ref.T
+}
+
+// oddFeed: feed A with its first caller tensor (sorted by name) one element longer on the last axis.
+func (s *subject) oddFeed() map[string]*ref.T {
+	var ks []string
+	for k := range s.FeedA {
+		ks = append(ks, k)
+	}
+	sort.Strings(ks)
+	f := map[string]*ref.T{}
+	for i, k := range ks {
+		f[k] = s.FeedA[k]
+		if i == 0 {
+			sh := append([]int{}, s.FeedA[k].Shape...)
+			if len(sh) == 0 {
+				sh = []int{2}
+			} else {
+				sh[len(sh)-1]++
+			}
+			f[k] = perturb(&ref.T{DT: s.FeedA[k].DT, Shape: sh, V: make([]uint64, ref.NElem(sh))}, 53)
+		}
+	}
+	return f
 }
 
 const (
@@ -481,8 +508,47 @@ func (s *subject) prepare() error {
 	if s.expA, err = refRunModel(s.Model, s.FeedA); err != nil {
 		return err
 	}
-	s.expB, err = refRunModel(s.Model, s.FeedB)
-	return err
+	if s.expB, err = refRunModel(s.Model, s.FeedB); err != nil {
+		return err
+	}
+	return nil
+}
+
+// probeC fills FeedC / expC. It runs the implementation once, sequentially - callers that need a process in which
+// the library has not been used yet (cold-start and global-state passes of C17) must not call it.
+func (s *subject) probeC() {
+	if !(strings.Contains(s.Name, "/init-mask=") || strings.HasPrefix(s.Name, "self:")) {
+		return
+	}
+	c := map[string]*ref.T{}
+	changed := false
+	for k, t := range s.FeedA {
+		c[k] = t
+		if len(t.Shape) >= 2 && t.Shape[0] > 1 {
+			if r, e := ref.Slice(t, []ref.SliceSpec{{Start: 0, End: 1, Step: 1, Axis: 0}}); e == nil {
+				c[k], changed = r, true
+			}
+		}
+	}
+	if !changed {
+		return
+	}
+	e, cerr := refRunModel(s.Model, c)
+	if cerr != nil {
+		return
+	}
+	// used only where a sequential Run agrees with the reference on it (an extent-1 axis can run into findings
+	// recorded under other properties, e.g. Slice dropping it: not this property's concern)
+	res := hx.RunModelBytes(s.Model, c, s.Outs)
+	if res.Err != nil || res.Panic != "" || res.ReadErr != "" {
+		return
+	}
+	for i, o := range s.Outs {
+		if k, _ := hx.CompareT(res.Outs[i], e[o], s.cmp); k != "" {
+			return
+		}
+	}
+	s.FeedC, s.expC = c, e
 }
 
 // historySubjects builds every model the history explorer quantifies over.
